@@ -163,6 +163,21 @@ class SymOps:
             return z3.BoolVal(False)
         return z3.And(view.n == n, z3.Or(n == 0, view.lo == of.lo + lo))
 
+    def eq_str(self, x, lit):
+        """x == "lit" for a value that is a Python string (or an opaque value)."""
+        from .engine import strv
+        if isinstance(x, str):
+            return z3.BoolVal(x == lit)
+        return x == strv(lit)
+
+    def inverse_perm(self, perm):
+        """Ghost inverse of a sorting permutation produced by the argsort model / contract."""
+        from .engine import ArrV
+        inv = self.eng.inv_of.get(perm.base)
+        if inv is None:
+            raise BindingError(f"no ghost inverse known for {perm.base}")
+        return ArrV(self.eng, inv, perm.heap)
+
     true = property(lambda self: z3.BoolVal(True))
     false = property(lambda self: z3.BoolVal(False))
 
@@ -224,6 +239,18 @@ class ConcOps:
     exists_val = exists
     true = True
     false = False
+
+    def eq_str(self, x, lit):
+        return x == lit
+
+    def inverse_perm(self, perm):
+        import numpy as np
+        a = np.asarray(perm.arr)
+        inv = np.full(len(a), -1, dtype=np.int64)
+        for i, p in enumerate(a):
+            if 0 <= p < len(a):
+                inv[p] = i
+        return CArr(inv)
 
     def is_slice(self, view, of, lo, n):
         import numpy as np
